@@ -11,11 +11,19 @@ pub struct SimConfig {
     pub max_steps: u64,
     pub stack_size: usize,
     pub trace: bool,
+    /// model std's writer-preferring RwLock (Linux futex implementation): once a writer is queued, new
+    /// readers wait -- a recursive read lock then deadlocks. Half of the seeds run with it (swarm style).
+    pub rwlock_writer_preference: bool,
 }
 
 impl SimConfig {
     pub fn new(seed: u64) -> SimConfig {
-        SimConfig { seed, policy: Policy::Random, max_steps: 3_000_000, stack_size: 1 << 20, trace: false }
+        let rwlock_writer_preference = match std::env::var("NUNSIM_RWLOCK").ok().as_deref() {
+            Some("fair") => true,
+            Some("unfair") => false,
+            _ => kernel::mix(seed, 0x7277_6c6f_636b) & 1 == 1,
+        };
+        SimConfig { seed, policy: Policy::Random, max_steps: 3_000_000, stack_size: 1 << 20, trace: false, rwlock_writer_preference }
     }
 }
 
@@ -58,6 +66,7 @@ where
         k.trace = Some(Vec::new());
     }
     kernel::install(k);
+    shuttle::sync::set_rwlock_writer_preference(cfg.rwlock_writer_preference);
     let slot: Arc<Mutex<Option<R>>> = Arc::new(Mutex::new(None));
     let fcell: Arc<Mutex<Option<F>>> = Arc::new(Mutex::new(Some(f)));
     let mut sc = shuttle::Config::new();
